@@ -102,11 +102,18 @@ func contains(xs []uint64, x uint64) bool {
 
 func randomPopulation(r *sim.Rng, n int) []*fsm.Validator {
 	stakeSet := []uint64{0, 1, 1, 5, 5, 5, 100, 100, 1000, 1 << 32, 1 << 40}
+	// one population in six has up to five very large stakes: the committee total lies in [2^63, 2^64), where
+	// 2*total does not fit in 64 bits (the threshold must still be floor(2*total/3)+1)
+	heavy := r.Intn(6) == 0
+	heavySet := []uint64{3_000_000_000_000_000_000, 2_500_000_000_000_000_000, 3_600_000_000_000_000_000}
 	var vals []*fsm.Validator
 	for i := 0; i < n; i++ {
 		k := sim.BLSKey(i)
 		v := &fsm.Validator{Address: k.Addr, PublicKey: k.Pub, NetAddress: fmt.Sprintf("tcp://v%d", i),
 			StakedAmount: stakeSet[r.Intn(len(stakeSet))], Output: k.Addr}
+		if heavy && i < 5 {
+			v.StakedAmount = heavySet[r.Intn(len(heavySet))]
+		}
 		switch r.Intn(6) {
 		case 0:
 			v.Committees = []uint64{1, 2}
